@@ -28,7 +28,10 @@ func checkC14(c *Ctx, w *World) {
 	// ---- C14.delay (switchFromTo)
 	f, t := m.sft.Params[1], m.sft.Params[2]
 	atoms := []atomDef{
-		eqAtom("alreadyCurrent", loadOf("multiEndpoint.current"), func(v ssa.Value) bool { fl, b, ok := loadedField(v); return ok && fl == "endpoint.id" && b == ssa.Value(t) }),
+		eqAtom("alreadyCurrent", loadOf("multiEndpoint.current"), func(v ssa.Value) bool {
+			fl, b, ok := loadedField(v)
+			return ok && fl == "endpoint.id" && b == ssa.Value(t)
+		}),
 		eqAtom("noDelay", loadOf("multiEndpoint.switchingDelay"), constIs(0)),
 		eqAtom("fromNil", isVal(f), isNil),
 		eqAtom("fromUnavailable", statusOf(isVal(f)), constIs(m.unavailable)),
@@ -294,9 +297,15 @@ func statusRules(m *mectx, c *Ctx, R func(string) string) {
 				okSS = false
 			}
 		}
-		cs := newCondSpace(m.setState, recOf(eqAtom("noTimer", func(v ssa.Value) bool { f, b, ok := loadedField(v); return ok && f == "endpoint.futureChange" && b == ssa.Value(e) }, isNil)), "noTimer")
+		cs := newCondSpace(m.setState, recOf(eqAtom("noTimer", func(v ssa.Value) bool {
+			f, b, ok := loadedField(v)
+			return ok && f == "endpoint.futureChange" && b == ssa.Value(e)
+		}, isNil)), "noTimer")
 		// Stop is skipped only when there is no timer
-		acs := newCondSpaceAvoid(m.setState, recOf(eqAtom("noTimer", func(v ssa.Value) bool { f, b, ok := loadedField(v); return ok && f == "endpoint.futureChange" && b == ssa.Value(e) }, isNil)), map[*ssa.BasicBlock]bool{stopCall.Block(): true}, "noTimer")
+		acs := newCondSpaceAvoid(m.setState, recOf(eqAtom("noTimer", func(v ssa.Value) bool {
+			f, b, ok := loadedField(v)
+			return ok && f == "endpoint.futureChange" && b == ssa.Value(e)
+		}, isNil)), map[*ssa.BasicBlock]bool{stopCall.Block(): true}, "noTimer")
 		_ = cs
 		if imp, _ := acs.Implies(acs.Reach(stStore), acs.Atom("noTimer")); !imp {
 			okSS = false
